@@ -36,6 +36,10 @@ REQUIRED = [P + t for t in (
     "addTrapezoids_eq_addShapes", "addTraps_eq_addShapes", "addTrap_offsets",
     # R5: triangle = its two trapezoids, every vertex order
     "triangle_tiles", "triangle_inside_iff", "addTriangles_eq", "addTriangle_eq_triCount",
+    # words: the row bodies on little-endian memory (Model/TrapWords.lean) = the per-pixel model = C10 pixel stores
+    "a1Store_regenerated", "a1Span_bits", "addAlpha_eq_store4", "row1_words", "row4_words", "row8Fill_words", "flushFill_words",
+    "holdsRow_unique", "rowWords_eq_realize", "row1_words_eq_realize", "row4_words_eq_realize", "row8_words_eq_realize",
+    "rasterizeEdgesW_holds", "rasterizeEdgesWB_mem",
     # R4
     "rowCount_split", "pixelValue_add", "pixelCount_hsplit", "pixelCount_edgesplit", "pixelCount_move", "row8_abut",
     # R6
@@ -56,6 +60,14 @@ PARTIAL = {
                                       "addTraps_eq_addShapes). Not covered by RowsOK although the walker is exact there: a right-leaning edge "
                                       "of non-integral slope whose first sample row is exactly its top vertex (tie at that row); covered by the "
                                       "Spec oracle",
+    "rasterizeEdgesW_holds": "the word/nibble/byte row bodies and the loop over the visited rows are modelled on a little-endian build "
+                             "without accessors (SCREEN_SHIFT_*, SHIFT_4 of !WORDS_BIGENDIAN; READ/WRITE plain); of the a1 block only the three "
+                             "stores after MASK_BITS are regenerated (LEFT_MASK/RIGHT_MASK/MASK_BITS, ADD_ALPHA, ADD_SATURATE_8 are "
+                             "hand-written); the memory loop recomputes line = buf + row*stride per visited row where C adds stride at "
+                             "big steps; the driver (flag w) runs rasterizeEdgesW (array-backed form, rasterizeEdgesWB_mem; that its per-row "
+                             "read-out nu is the identity is not proved) against the array model for small requests only "
+                             "(a4/a8 width <= 9, a1 width <= 140) and the library is compared with the array model, not with the memory "
+                             "directly; entry points (add_traps etc.) on memory are folds of this theorem, not stated",
     "triangle_tiles": "R5 is proved for every vertex order (sort by (y,x), left/right by the cross product sign, horizontal sides) "
                       "under TriFits (the int32 differences of clockwise() do not wrap) and area2 != 0; for collinear vertices the "
                       "equality with the symmetric inside test is false at lattice ties of the snapping (both draw nothing else); "
@@ -205,6 +217,9 @@ def analyse(ctx, st, findings, hist, nontrivial, samples):
         if "f" in F:
             findings.append(("model:spanfill-vs-naive", op, "a8", o, img, M,
                              "the a8 span-fill loop of the model differs from the naive per-row loop"))
+        if "w" in F:
+            findings.append(("model:words-vs-array", op, "n" + depth, o, img, M,
+                             "the word/byte-level row bodies (Model/TrapWords.lean) on a byte memory do not give the array model's image"))
         if "g" in F:
             findings.append(("spec:triangle-vs-decomposition", op, "n" + depth, o, img, S,
                              "the triangles' own inside test (Spec.triCount) differs from the Spec count of the two trapezoids "
